@@ -7,10 +7,10 @@ import (
 	"github.com/parquet-go/parquet-go"
 )
 
-// TypedWriter is a handle on a GenericWriter[T] or SortingWriter[T] of a catalogue type, for
+// StatefulWriter is a handle on a GenericWriter[T] or SortingWriter[T] of a catalogue type, for
 // checks that drive a writer instance through a history of calls (Write/Flush/Close/Reset).
 // Row slices travel as `any` holding a []T.
-type TypedWriter interface {
+type StatefulWriter interface {
 	Write(rows any) (int, error)
 	Flush() error
 	Close() error
@@ -20,8 +20,8 @@ type TypedWriter interface {
 	WriteRowGroup(rg parquet.RowGroup) (int64, error)
 }
 
-// TypedBuffer is a handle on a GenericBuffer[T].
-type TypedBuffer interface {
+// StatefulBuffer is a handle on a GenericBuffer[T].
+type StatefulBuffer interface {
 	parquet.RowGroup
 	sort.Interface
 	Write(rows any) (int, error)
@@ -48,19 +48,19 @@ func (w typedSortingWriter[T]) WriteRowGroup(parquet.RowGroup) (int64, error) {
 	return 0, errNoRowGroupWrite{}
 }
 
-type typedBuffer[T any] struct{ *parquet.GenericBuffer[T] }
+type c17TypedBuffer[T any] struct{ *parquet.GenericBuffer[T] }
 
-func (b typedBuffer[T]) Write(rows any) (int, error) { return b.GenericBuffer.Write(rows.([]T)) }
+func (b c17TypedBuffer[T]) Write(rows any) (int, error) { return b.GenericBuffer.Write(rows.([]T)) }
 
 // typedExt fills the instance-handle constructors of an entry (called from entryOf).
 func typedExt[T any](e *Entry) {
-	e.NewTypedWriter = func(w io.Writer, opts ...parquet.WriterOption) TypedWriter {
+	e.NewTypedWriter = func(w io.Writer, opts ...parquet.WriterOption) StatefulWriter {
 		return typedGenericWriter[T]{parquet.NewGenericWriter[T](w, opts...)}
 	}
-	e.NewTypedSortingWriter = func(w io.Writer, sortRowCount int64, opts ...parquet.WriterOption) TypedWriter {
+	e.NewTypedSortingWriter = func(w io.Writer, sortRowCount int64, opts ...parquet.WriterOption) StatefulWriter {
 		return typedSortingWriter[T]{parquet.NewSortingWriter[T](w, sortRowCount, opts...)}
 	}
-	e.NewTypedBuffer = func(opts ...parquet.RowGroupOption) TypedBuffer {
-		return typedBuffer[T]{parquet.NewGenericBuffer[T](opts...)}
+	e.NewTypedBuffer = func(opts ...parquet.RowGroupOption) StatefulBuffer {
+		return c17TypedBuffer[T]{parquet.NewGenericBuffer[T](opts...)}
 	}
 }
